@@ -2,6 +2,6 @@ SPECIFICATION PSpec
 CONSTANTS
   MaxParts = 3
 VIEW pview
-INVARIANTS PTypeOK ClassesUniform ProofCheckExact StoredGenuine ReassemblyExact
+INVARIANTS PTypeOK ClassesUniform ClassesUniformAllHeaders EmptyRootAcceptsNothing EmptyHeaderNeverFills ProofCheckExact StoredGenuine ReassemblyExact
 PROPERTIES OnlyGenuineAccepted RejectLeavesSetUnchanged Monotone
 CHECK_DEADLOCK FALSE
